@@ -94,7 +94,7 @@ def build(reg, src):
         "verbs that are bare NumPy ufunc calls and the verbs listed in the module docstring are not under contract",
         "the numpy backend is assumed (backend.is_backend_array is false for NumPy arrays)",
     ]
-    reg.prefer_cvc5 = [r'eval_dyad_take#post', r'eval_dyad_split#post']
+    reg.prefer_cvc5 = [r'eval_dyad_take#post', r'eval_dyad_split(\[\w+\])?#post', r'eval_dyad_split#loop0\.inv2']
     B = lambda s: s.b0.t
     A = lambda s: s.a0.t
     N = lambda s: z3.Length(s.b0.t)
@@ -146,8 +146,43 @@ def build(reg, src):
         vec('b')(eng, st)
         st.env['a'] = fresh(Int, 'size')           # a single segment size
 
+    # several sizes, used cyclically: spec functions  cyc_p(j) = index of the size used for member j,  cyc_off(j) = where member j
+    # starts (recursive definitions, handed to the solver as their defining equations)
+    SeqInt = z3.SeqSort(Int)
+    CP = z3.Function('cyc_p', Int, Int)
+    CO = z3.Function('cyc_off', Int, Int)
+
+    def sizes_setup(eng, st):
+        vec('b')(eng, st)
+        a = z3.Const('a_sizes', SeqInt)
+        st.env['a'] = VSeq(a)
+        m = z3.Length(a)
+        j = z3.Const(fresh_name('j'), Int)
+        st.assume(z3.And(CP(0) == 0, CO(0) == 0,
+                         z3.ForAll([j], z3.Implies(j >= 0, z3.And(CP(j + 1) == z3.If(CP(j) + 1 >= m, 0, CP(j) + 1),
+                                                                  CO(j + 1) == CO(j) + a[CP(j)])))))
+
+    def split_req(s):
+        if isinstance(s.a, VInt):
+            return s.a > 0
+        a = s.a.t
+        k = z3.Const(fresh_name('k'), Int)
+        return VBool(z3.And(z3.Length(a) >= 2, z3.ForAll([k], z3.Implies(z3.And(k >= 0, k < z3.Length(a)), a[k] > 0))))
+
+    def rseq(v):
+        return z3.Empty(SeqSeq) if isinstance(v, VList) and not v.items else v.t
+
+    def seg_c(b, n, a, j):
+        return z3.SubSeq(b, CO(j), z3.If(CO(j) + a[CP(j)] <= n, a[CP(j)], n - CO(j)))
+
     def split_post(s, r):
-        b, n, sz = B(s), N(s), A(s)
+        b, n = B(s), N(s)
+        if isinstance(s.a0, VSeq):
+            if not isinstance(r, VSeq) or r.t.sort() != SeqSeq:
+                return Implies(VBool(n > 0), VBool(False))
+            a, cnt = s.a0.t, z3.Length(r.t)
+            return VBool(z3.And(CO(cnt) >= n, z3.ForAll([jj], z3.Implies(z3.And(jj >= 0, jj < cnt), z3.And(CO(jj) < n, r.t[jj] == seg_c(b, n, a, jj))))))
+        sz = A(s)
         if isinstance(r, VList) and not r.items:
             return VBool(n == 0)
         if not isinstance(r, VSeq):
@@ -157,8 +192,31 @@ def build(reg, src):
         cnt = (n + sz - 1) / sz
         seg = lambda j: z3.SubSeq(b, j * sz, z3.If((j + 1) * sz <= n, sz, n - j * sz))
         return Implies(VBool(n > 0), VBool(z3.And(z3.Length(r.t) == cnt, z3.ForAll([jj], z3.Implies(z3.And(jj >= 0, jj < cnt), r.t[jj] == seg(jj))))))
-    reg.fn(DY + 'eval_dyad_split', setup=split_setup, requires=[lambda s: s.a > 0], returns='opaque', ensures=[split_post],
-           loops={0: loop()})
+
+    def inv_members(s):
+        b, n, a, R = s.b.t, z3.Length(s.b.t), s.a.t, rseq(s.r)
+        return VBool(z3.ForAll([jj], z3.Implies(z3.And(jj >= 0, jj < z3.Length(R)), z3.And(CO(jj) < n, R[jj] == seg_c(b, n, a, jj)))))
+    reg.fn(DY + 'eval_dyad_split', cases=[('size', split_setup), ('sizes', sizes_setup)], requires=[split_req], returns='opaque', ensures=[split_post],
+           loops={0: loop(invariant=[lambda s: VBool(z3.And(s.p.t == CP(z3.Length(rseq(s.r))), s.p.t >= 0, s.p.t < z3.Length(s.a.t))),
+                                     lambda s: VBool(z3.And(s.q.t == CO(z3.Length(rseq(s.r))), s.q.t >= 0)),
+                                     inv_members],
+                          variant=lambda s: VInt(z3.Length(s.b.t) - s.q.t),
+                          havoc=dict(r=lambda h: VSeq(z3.Const(fresh_name(h), SeqSeq))))})
+
+    # ---------------- Integer-Divide on integer atoms: the integer part of the quotient (truncation toward zero), b != 0
+    def idiv_setup(eng, st):
+        st.env['x'] = fresh(Int, 'x')
+        st.env['y'] = fresh(Int, 'y')
+        st.env['backend'] = VOpaque(hint='backend', nonnull=True)
+
+    def idiv_post(s, r):
+        if not isinstance(r, VInt):
+            return VBool(False)
+        x, y, q = s.x0.t, s.y0.t, r.t
+        ab = lambda e: z3.If(e >= 0, e, -e)
+        return VBool(z3.And(ab(q) * ab(y) <= ab(x), ab(x) < (ab(q) + 1) * ab(y),          # |q| = floor(|x| / |y|)
+                            z3.Implies(q > 0, (x > 0) == (y > 0)), z3.Implies(q < 0, (x > 0) != (y > 0))))
+    reg.fn(DY + '_e_dyad_integer_divide', setup=idiv_setup, requires=[lambda s: s.y != 0], returns='opaque', ensures=[idiv_post])
 
     # ---------------- finditer: generator; yields go to the ghost output sequence
     def fi_setup(eng, st):
@@ -269,6 +327,29 @@ def configure(eng):
     X['is_empty'] = lambda e, st, a, k, n: [(st, VBool(z3.Length(a[0].t) == 0) if is_seq(a[0]) else VBool(False))]
     X['is_list'] = lambda e, st, a, k, n: [(st, VBool(is_seq(a[0])))]
 
+    def np_divide(e, st, a, k, n):
+        x, y = a
+        if isinstance(x, (VInt, VReal)) and isinstance(y, (VInt, VReal)):
+            tr = lambda v: z3.ToReal(v.t) if isinstance(v, VInt) else v.t
+            outs = []
+            for s2, nz in e.branch(st, tr(y) != 0, 'np.divide'):
+                outs.append((s2, VReal(tr(x) / tr(y))) if nz else (s2, VOpaque(hint='inf-or-nan')))
+            return outs
+        raise Refuse("np.divide of non-scalars is not modelled")
+    X['np_backend.divide'] = np_divide
+    X['np_backend.isarray'] = lambda e, st, a, k, n: [(st, VBool(is_seq(a[0])))]
+    X['np_backend.sign'] = lambda e, st, a, k, n: [(st, VInt(z3.If(a[0].t > 0, 1, z3.If(a[0].t < 0, -1, 0))) if isinstance(a[0], VInt) else VOpaque(hint='sign'))]
+
+    def to_int(e, st, a, k, n):
+        v = a[0]
+        if isinstance(v, VInt):
+            return [(st, v)]
+        if isinstance(v, VReal):          # int(float) truncates toward zero
+            return [(st, VInt(z3.If(v.t >= 0, z3.ToInt(v.t), -z3.ToInt(-v.t))))]
+        return [(st, VOpaque(hint='int'))] + e.maybe_raise(st, 'to_int_array', n)
+    X['backend.to_int_array'] = to_int
+    X['np_backend.trunc'] = lambda e, st, a, k, n: [(st, VReal(z3.ToReal(z3.If(a[0].t >= 0, z3.ToInt(a[0].t), -z3.ToInt(-a[0].t)))) if isinstance(a[0], VReal) else a[0])]
+
     def tile(e, st, a, k, n):
         b, reps = a
         nb = z3.Length(b.t)
@@ -332,6 +413,14 @@ def configure(eng):
             return [e.exc(st, 'TypeError', node)]        # an atom (number) is not subscriptable
         return None
     eng.hooks['slice_step'] = slice_step
+
+    def method(e, o, m, args, kwargs, st, node):
+        if m == 'append' and len(args) == 1 and isinstance(args[0], VSeq) and args[0].t.sort() == SeqObj:
+            if isinstance(o, VSeq) and o.t.sort() == SeqSeq:
+                e.rebind(st, o, VSeq(z3.Concat(o.t, z3.Unit(args[0].t))))
+                return [(st, NONE)]
+        return None
+    eng.hooks['method'] = method
 
     def comprehension(e, node, kind, it, st):
         """[b[q:q+s] for q in range(0, n, s)]: the REAL element expression on the generic j-th step"""
